@@ -187,8 +187,23 @@ def _real_tables_case(case, tier, seed):
             else:
                 res['violations'].append(dict(case=case.name, claim='shipped_code[%s:%s]' % (tname, code), values={'members': members},
                                               observed=[str(got.labile_formula), str(atoms)], how='concrete'))
+    # the formula prefixes give the same formula (counts, density) as the sequence classes, ambiguity codes included
+    from periodictable import formulas
+    for tname, texts in (('aa', ['A', 'ACD', 'BXZJ', 'GGX', 'XXXXXXX AC']), ('dna', ['B', 'ACGT', 'NNB', 'DHV', 'RYKMSWBDHVN']),
+                         ('rna', ['B', 'ACGU', 'NNB', 'DHV'])):
+        for text in texts:
+            res['claims'] += 1
+            want = fasta.Sequence(None, text, type=tname).labile_formula
+            got = formulas.formula('%s:%s' % (tname, text))
+            if dict(got.atoms) == dict(want.atoms) and got.density == want.density:
+                res['discharged'] += 1
+            else:
+                diff = {str(a): (got.atoms.get(a), c) for a, c in want.atoms.items() if got.atoms.get(a) != c}
+                res['violations'].append(dict(case=case.name, claim='prefix_equals_sequence[%s:%s]' % (tname, text), values={},
+                                              observed=[repr(diff)[:200], repr((got.density, want.density))], how='concrete'))
     res['queries'] = res['distinct'] = res['claims']
     res['samples'] = [dict(checked_codes=res['claims'])]
+    res['violations'] = res['violations'][:5]
     return res
 
 
